@@ -341,6 +341,9 @@ func (t *tr) expr(e ast.Expr) string {
 		if fn == "len" && len(v.Args) == 1 {
 			return "(GoLen.len " + t.expr(v.Args[0]) + ")"
 		}
+		if (fn == "int" || fn == "int64" || fn == "int32") && len(v.Args) == 1 {
+			return t.expr(v.Args[0]) // integer conversions are the identity on the model's Int (values are small)
+		}
 		if ln, ok := t.funcs[fn]; ok {
 			parts := []string{ln}
 			for _, a := range v.Args {
@@ -480,6 +483,7 @@ func emitCond0(fs *strings.Builder, funcs map[string]string, p *pkg, cst *consts
 	if e == nil {
 		fail("%s:%s: expected condition not found", file, name)
 	}
+	e = inlineLocals(fd, e)
 	t := &tr{atoms: atoms, c: cst, funcs: funcs, who: file + ":" + name}
 	fmt.Fprintf(fs, "/-- %s: condition in `%s`: `%s` -/\ndef %s %s :=\n  %s\n\n", file, strings.TrimSpace(recv+" "+name), src(e), lean, sig, t.expr(e))
 }
@@ -547,6 +551,98 @@ func rewriteAssignNilStmt(st ast.Stmt, name string) ast.Stmt {
 		}
 	}
 	return st
+}
+
+// withHelpers returns the body of fd followed by the bodies of the unexported functions / methods
+// of the same package that it calls (transitively, two levels): an extraction that looks for a
+// construct "in function f" still finds it after the construct was moved into a helper of f.
+func withHelpers(p *pkg, fd *ast.FuncDecl) []ast.Node {
+	out := []ast.Node{fd.Body}
+	seen := map[string]bool{fd.Name.Name: true}
+	frontier := []*ast.BlockStmt{fd.Body}
+	for depth := 0; depth < 2; depth++ {
+		var next []*ast.BlockStmt
+		for _, b := range frontier {
+			ast.Inspect(b, func(n ast.Node) bool {
+				call, ok := n.(*ast.CallExpr)
+				if !ok {
+					return true
+				}
+				name := ""
+				switch f := call.Fun.(type) {
+				case *ast.Ident:
+					name = f.Name
+				case *ast.SelectorExpr:
+					if _, isIdent := f.X.(*ast.Ident); isIdent {
+						name = f.Sel.Name
+					}
+				}
+				if name == "" || ast.IsExported(name) || seen[name] {
+					return true
+				}
+				for _, fn := range sortedFiles(p) {
+					for _, d := range p.files[fn].Decls {
+						if hd, ok := d.(*ast.FuncDecl); ok && hd.Name.Name == name && hd.Body != nil && !seen[name] {
+							seen[name] = true
+							out = append(out, hd.Body)
+							next = append(next, hd.Body)
+						}
+					}
+				}
+				return true
+			})
+		}
+		frontier = next
+	}
+	return out
+}
+
+// inlineLocals replaces, in a copy of e, every identifier that the function defines exactly once
+// with `x := <expr>` (and never assigns again) by that expression - so that a condition written
+// through a named intermediate (`isReply := …; if s.allowP && isReply`) is translated like the
+// direct form. Two levels.
+func inlineLocals(fd *ast.FuncDecl, e ast.Expr) ast.Expr {
+	defs := map[string]ast.Expr{}
+	count := map[string]int{}
+	ast.Inspect(fd.Body, func(n ast.Node) bool {
+		if as, ok := n.(*ast.AssignStmt); ok {
+			for i, l := range as.Lhs {
+				if id, ok := l.(*ast.Ident); ok {
+					count[id.Name]++
+					if as.Tok == token.DEFINE && len(as.Lhs) == len(as.Rhs) {
+						defs[id.Name] = as.Rhs[i]
+					}
+				}
+			}
+		}
+		return true
+	})
+	var rewrite func(x ast.Expr, depth int) ast.Expr
+	rewrite = func(x ast.Expr, depth int) ast.Expr {
+		switch v := x.(type) {
+		case *ast.Ident:
+			if d, ok := defs[v.Name]; ok && count[v.Name] == 1 && depth < 2 {
+				if _, isCall := d.(*ast.CallExpr); !isCall { // only pure expressions
+					return &ast.ParenExpr{X: rewrite(d, depth+1)}
+				}
+			}
+			return v
+		case *ast.ParenExpr:
+			return &ast.ParenExpr{X: rewrite(v.X, depth)}
+		case *ast.UnaryExpr:
+			return &ast.UnaryExpr{Op: v.Op, X: rewrite(v.X, depth)}
+		case *ast.BinaryExpr:
+			return &ast.BinaryExpr{X: rewrite(v.X, depth), Op: v.Op, Y: rewrite(v.Y, depth)}
+		}
+		return x
+	}
+	return rewrite(e, 0)
+}
+
+func inspectAll(nodes []ast.Node, f func(ast.Node) bool) {
+	for _, n := range nodes {
+		ast.Inspect(n, f)
+	}
 }
 
 func src0(es []ast.Expr) string {
@@ -856,7 +952,7 @@ func main() {
 			fail("hdr.Recv not found")
 		}
 		var cases []string
-		ast.Inspect(fd.Body, func(n ast.Node) bool {
+		inspectAll(withHelpers(chanp, fd), func(n ast.Node) bool {
 			if cc, ok := n.(*ast.CaseClause); ok {
 				for _, e := range cc.List {
 					if bl, ok := e.(*ast.BasicLit); ok && bl.Kind == token.STRING {
@@ -956,7 +1052,7 @@ func main() {
 	emit(root, c, "Code", "Err", "codeErr", "(c : Int) : Option Int",
 		map[string]string{"nil": "none", "codeError(c)": "(some c)"})
 	emit(root, c, "ServerOptions", "concurrency", "concurrency", "(sNil : Bool) (conc ncpu : Int) : Int",
-		map[string]string{"s == nil": "sNil", "s.Concurrency": "conc", "int64(runtime.NumCPU())": "ncpu", "int64(s.Concurrency)": "conc"})
+		map[string]string{"s == nil": "sNil", "s != nil": "(!sNil)", "s.Concurrency": "conc", "int64(runtime.NumCPU())": "ncpu", "runtime.NumCPU()": "ncpu", "int64(s.Concurrency)": "conc"})
 	emit(root, c, "ServerOptions", "allowPush", "allowPush", "(sNil allow : Bool) : Bool",
 		map[string]string{"s != nil": "(!sNil)", "s.AllowPush": "allow"})
 	emit(root, c, "ServerOptions", "allowBuiltin", "allowBuiltin", "(sNil disable : Bool) : Bool",
@@ -1089,6 +1185,9 @@ func main() {
 		ast.Inspect(fd.Body, func(n ast.Node) bool {
 			if is, ok := n.(*ast.IfStmt); ok && found == nil && strings.Contains(src(is.Cond), "s.allowP") {
 				found = is.Cond
+			}
+			if cc, ok := n.(*ast.CaseClause); ok && found == nil && len(cc.List) == 1 && strings.Contains(src(cc.List[0]), "s.allowP") {
+				found = cc.List[0]
 			}
 			return true
 		})
